@@ -29,6 +29,12 @@ fn values<F: Flt>(l: &Layout, max: usize) -> Vec<Parts<F>> {
         }).collect();
         out.push(Parts { vals, present: vec![true; g] });
     }
+    // a non-zero real part that rounds to zero in single precision (and one that overflows)
+    for re in [1e-50, -1e-60, 1e60] {
+        let vals: Vec<F> = (0..l.nslots()).map(|i| F::from64(if i == 0 { re } else { VALS[1 + i % 5] })).collect();
+        out.push(Parts { vals: vals.clone(), present: vec![true; g] });
+        out.push(Parts { vals, present: vec![false; g] });
+    }
     for pat in 0..(1usize << g) {
         let present: Vec<bool> = (0..g).map(|i| pat & (1 << i) == 0).collect();
         for shift in 0..VALS.len() {
